@@ -132,7 +132,7 @@ def main(tier):
                       'binding map of %r: %s' % (p['wxml'][:300], desc), {'wxml': p['wxml'], 'kind': kind})
     try:
         from kani import runner
-        runner.run_for(res, 'C07', tier)
+        runner.run_for(res, 'C07', tier, names=None if tier == 'thorough' else ['k05a_array_literal2', 'k05a_object_literal', 'k05a_call'])
     except ImportError:
         res.coverage['kani'] = 'harnesses not built in this revision'
     res.coverage.update({'programs': len(progs), 'obligations': nobl, 'disagreements_checked': res.coverage.get('disagreements_checked', 0),
